@@ -51,7 +51,26 @@ fn gen_adversarial(rng: &mut Rng, topic: Topic, victims: &mut [HonestLog], heigh
             _ => right_backlink.or(Some(Hash::digest(b"x"))),
         }
     };
-    match rng.below(8) {
+    match rng.below(10) {
+        // A stored operation of the victim re-delivered with its id (`hash` field), key and
+        // signature kept but the header altered (prune flag set, higher seq): the signature no
+        // longer covers the header, and the caller-supplied id no longer matches it.
+        8 | 9 => {
+            let donor = stored[v][rng.usize_below(stored[v].len())].clone();
+            let mut op = donor.clone();
+            let new_seq = *rng.pick(&[height, height + 1, height + 5, 1000, u32::MAX]);
+            op.header.seq_num = new_seq;
+            if op.header.backlink.is_none() && new_seq > 0 {
+                op.header.backlink = Some(Hash::digest(b"b"));
+            }
+            op.header.extensions = op.header.extensions.clone().set_prune_flag(true);
+            // keep op.hash = donor.hash (stale id) in half of the cases, recompute otherwise
+            let stale = rng.bool();
+            if !stale {
+                op.hash = op.header.hash();
+            }
+            Adv { op, authentic: false, kind: format!("stored-op-altered-header(stale_id={stale},seq={new_seq},height={height})") }
+        }
         // Forged: claims the victim, not signed by the victim.
         0 | 1 | 2 | 3 => {
             let mut header = unsigned_header(victims[v].author(), topic, seq, backlink, body.as_deref(), prune);
